@@ -139,6 +139,26 @@ pub fn check_pair(sources: &Sources, base_yaml: &str, through_cli: bool, r: &mut
                         r.fail(Failure::new("c14:cli-base-not-preserved", "the frame of the CLI output differs from the base".to_owned()));
                     } else if cpaths.as_object().map(|m| m.keys().cloned().collect::<Vec<_>>()) != ppaths.as_object().map(|m| m.keys().cloned().collect::<Vec<_>>()) {
                         r.fail(Failure::new("c14:cli-paths", "the CLI output has other path keys than the program denotes".to_owned()));
+                    } else {
+                        // The base is edited (nothing else) and the same command runs again into the
+                        // same target: the output is built on the new base.
+                        let decoy = "openapi: 3.0.3\ninfo:\n  title: second base\n  version: '2'\npaths: {}\n";
+                        dir.write("base.yaml", decoy);
+                        let again = match how {
+                            0 => run_cli(&dir.path, &["-m", &sources.main, "-t", "out.yaml", "-b", "base.yaml"]),
+                            1 => run_cli(&dir.path, &["-c", "oal.toml"]),
+                            _ => run_cli(&dir.path, &["-c", "oal.toml", "-b", "base.yaml"]),
+                        };
+                        let text2 = std::fs::read_to_string(dir.path.join("out.yaml")).unwrap_or_default();
+                        let want = serde_yaml::from_str::<openapiv3::OpenAPI>(decoy).ok().map(|d| split(&serde_json::to_value(&d).unwrap()).0);
+                        let got = serde_yaml::from_str::<openapiv3::OpenAPI>(&text2).ok().map(|d| split(&serde_json::to_value(&d).unwrap()).0);
+                        r.label("cli-base-edited-and-rerun");
+                        if again.code != Some(0) || want.is_none() || got != want {
+                            r.fail(Failure::new(
+                                "c14:cli-stale-base",
+                                format!("after the base file was replaced and the same command run again (exit {}), the frame of the target is not that of the new base", again.status),
+                            ));
+                        }
                     }
                 }
             }
